@@ -86,7 +86,8 @@ def traces_of(case, graph):
         near = [(p[0] + 0.13, p[1] - 0.11) for p in P]
         n = len(P) - 1
         idx = [(0, n // 2, n), (0, n, 1), (1, n - 1, 0), (0, 1, n), (n, n // 2, 0), (n // 2, 0, n - 1)]
-        four = [[near[0], al.FAR[pos], near[n // 2], near[n]], [near[0], near[n // 2], al.FAR[pos], near[n]]]
+        four = [[near[0], al.FAR[pos], near[n // 2], near[n]], [near[0], near[n // 2], al.FAR[pos], near[n]],
+                [near[0], near[n // 2], near[n - 1], near[n]], [near[1], near[n // 2], near[n - 2], near[n - 1], near[n]]]
         return [t for t in ms.axis_traces(graph) if len(t) == 3] + [[near[min(i, n)] for i in t] for t in idx] + four
     if case["slice"] == "hist":
         o = al.OBS[pos]
